@@ -17,6 +17,9 @@ import (
 type objectValidator struct {
 	requiredKeys map[string]int
 
+	// usedShortcuts key shortcuts already matched by a document key.
+	usedShortcuts map[string]struct{}
+
 	// node_ an object or mixed.
 	node_   schema.Node
 	parent_ validator
@@ -113,14 +116,15 @@ func (v *objectValidator) feedObjectValueBegin() ([]validator, bool) {
 	}
 
 	// child node not found on schema object
-	if c := v.node_.Constraint(constraint.RequiredKeysConstraintType); c != nil {
-		key, ok := v.validateTypeRules(v.lastFoundKeyLex.Value())
+	if key, ok := v.validateTypeRules(objectNode, v.lastFoundKeyLex.Value()); ok {
+		child, ok := objectNode.ChildByRawKey([]byte(key))
 		if ok {
-			child, ok := objectNode.ChildByRawKey([]byte(key))
-			if ok {
-				delete(v.requiredKeys, key)
-				return NodeValidatorList(child, v.rootSchema, v), false
+			if v.usedShortcuts == nil {
+				v.usedShortcuts = make(map[string]struct{}, 1)
 			}
+			v.usedShortcuts[key] = struct{}{}
+			delete(v.requiredKeys, key)
+			return NodeValidatorList(child, v.rootSchema, v), false
 		}
 	}
 	if c := v.node_.Constraint(constraint.AdditionalPropertiesConstraintType); c != nil {
@@ -142,8 +146,16 @@ func (v objectValidator) requiredKeysString() string {
 }
 
 // validate with rules
-func (v objectValidator) validateTypeRules(value jbytes.Bytes) (string, bool) {
-	for key := range v.requiredKeys {
+func (v objectValidator) validateTypeRules(objectNode *schema.ObjectNode, value jbytes.Bytes) (string, bool) {
+	// Key shortcuts are tried in declaration order; each admits one document key.
+	for _, k := range objectNode.Keys().Data {
+		if !k.IsShortcut {
+			continue
+		}
+		key := k.Key
+		if _, used := v.usedShortcuts[key]; used {
+			continue
+		}
 		typ, ok := v.rootSchema.TypesList()[key]
 		if !ok {
 			continue
